@@ -32,8 +32,27 @@ def cases(tier, seed):
         g = sg.sg(sgno=no, cell_choice=cc)
         for ci, cell in enumerate(alph.conforming_cells(g.crystal_system, g.cell_choice, tier)):
             for mod in ("tools", "laue"):
-                cs.append({"mod": mod, "no": no, "cc": cc, "cell": cell, "tier": tier, "far": mod == "tools" or ci == 0})
+                cs.append({"mod": mod, "no": no, "cc": cc, "cell": cell, "tier": tier, "far": mod == "tools" or ci == 0, "forms": ci == 0})
+    # cells typed with whole numbers, in every container / dtype (alph.kinds): one representative group per Laue class / setting
+    from .c05 import SWEEP_GROUPS
+
+    for no, cc in SWEEP_GROUPS:
+        g = sg.sg(sgno=no, cell_choice=cc)
+        for cell in alph.int_cells(g.crystal_system, g.cell_choice):
+            for mod in ("tools", "laue"):
+                cs.append({"mod": mod, "no": no, "cc": cc, "cell": cell, "tier": tier, "far": False, "cellkinds": True})
     return cs
+
+
+def same_list(U4, Un, errn, rel=1e-12):
+    if errn is not None or Un is None:
+        return False
+    Un = np.asarray(Un, float)
+    if Un.shape != U4.shape:
+        return False
+    if U4.size == 0:
+        return True
+    return bool(np.array_equal(Un[:, :3], U4[:, :3])) and bool(np.all(np.abs(Un[:, 3] - U4[:, 3]) <= rel * U4[:, 3]))
 
 
 def check_case(case):
@@ -49,7 +68,9 @@ def check_case(case):
     orc = G.Oracle(g, cell, max(s[1] for s in shells))
     Gi = O.recip_metric(cell)
     base = "%s:Sg%d/%s:cell=%s" % (case["mod"], no, cc, cell)
-    if not case.get("far", True):
+    if case.get("cellkinds"):
+        shells = shells[:2]
+    elif not case.get("far", True):
         shells = shells[:-1]  # the far-out thin shell is run for xfab.laue on the first cell of each setting only (C14 compares the modules)
     bounds = [(orc.bound(t0), orc.bound(t1)) for (t0, t1) in shells]
     vals = np.unique(np.round(orc.s[~orc.ext], 10))
@@ -140,6 +161,35 @@ def check_case(case):
                 Un, errn = G.call_lib(mod.genhkl_unique, cell, smin, smax, sgname=sp, output_stl=True)
                 okn = errn is None and np.asarray(Un).shape == U4.shape and bool(np.array_equal(np.asarray(Un, float), U4))
                 r.require(okn, key + ":by-name:%r" % sp, "genhkl_unique by name %r equals the call by number and setting" % sp, None, errn or np.asarray(Un).shape)
+        # every way of asking for the group (oracles.group_forms), by keyword and positionally
+        if bi == 0 and case.get("forms"):
+            for lab, kw in O.group_forms(no, cc):
+                Un, errn = G.call_lib(mod.genhkl_unique, cell, smin, smax, output_stl=True, **kw)
+                r.require(same_list(U4, Un, errn), key + ":form=" + lab, "genhkl_unique asked by %s equals the call by number and setting" % lab, None, errn or np.asarray(Un).shape)
+                Un, errn = G.call_lib(mod.genhkl_unique, cell, smin, smax, kw.get("sgname"), kw.get("sgno"), kw.get("cell_choice", "standard"), True)
+                r.require(same_list(U4, Un, errn), key + ":form=" + lab + ":positional", "genhkl_unique asked by %s (positional) equals the call by number and setting" % lab, None,
+                          errn or np.asarray(Un).shape)
+                r.evals += 2
+        if bi == 0 and case.get("cellkinds"):
+            for kind, obj, prec in alph.kinds(cell):
+                for form in ("positional", "keywords"):
+                    if form == "positional":
+                        Un, errn = G.call_lib(mod.genhkl_unique, obj, smin, smax, None, no, cc, True)
+                    else:
+                        Un, errn = G.call_lib(mod.genhkl_unique, unit_cell=obj, sintlmin=smin, sintlmax=smax, sgno=no, cell_choice=cc, output_stl=True)
+                    if prec == "single" and errn is None and Un is not None and np.asarray(Un).shape == U4.shape:
+                        # float32 cell: ties in sin(theta)/lambda may be ordered differently and another family member chosen;
+                        # demanded: the same families, each with the same sin(theta)/lambda to single precision
+                        Un = np.asarray(Un, float)
+                        kn = orc.family_keys(np.array(G.as_int_rows(Un)[0], dtype=np.int64).reshape(-1, 3))
+                        a = dict(zip(kn.tolist(), Un[:, 3].tolist()))
+                        b = dict(zip(ukeys.tolist(), U4[:, 3].tolist()))
+                        oks = set(a) == set(b) and len(a) == len(kn) and all(abs(a[k_] - b[k_]) <= 1e-5 * b[k_] for k_ in b)
+                        r.require(oks, key + ":cell as %s:%s" % (kind, form), "genhkl_unique for a float32 cell: same families, same sin(theta)/lambda to single precision")
+                        continue
+                    r.require(same_list(U4, Un, errn, 1e-12 if prec == "exact" else 1e-5), key + ":cell as %s:%s" % (kind, form),
+                              "genhkl_unique for a cell given as %s equals the result for the float list" % kind, None, errn or np.asarray(Un).shape)
+                    r.evals += 1
         if len(reff) >= 2:
             r.nontrivial.add(key)
         r.extra["families"] = r.extra.get("families", 0) + len(reff)
